@@ -13,6 +13,8 @@ def py_splice(tgt, eff, pls):
             if op == gen.PLUS:
                 out.append(l)
             elif op == gen.SP:
+                if k == len(tgt) and f > 0:
+                    continue       # context at the end of the hunk which fuzz ignores and which the file does not have (D99)
                 out.append(tgt[k]); k += 1
             else:
                 k += 1
